@@ -11,8 +11,10 @@ PROP = dict(
         dict(name="traversal", harness="dav", oracle="DAV", args=["-stage", "traversal"], oracle_args=["c17"]),
         dict(name="history", harness="dav", oracle="DAV", args=["-stage", "history"], oracle_args=["c17"]),
         dict(name="exotic", harness="dav", oracle="DAV", args=["-stage", "exotic"], oracle_args=["c17"]),
+        dict(name="rootspell", harness="dav", oracle="DAV", args=["-stage", "rootspell"], oracle_args=["c17"]),
+        dict(name="raceput", harness="dav", oracle="DAV", args=["-stage", "raceput"], oracle_args=["c17"]),
     ],
-    rule=UNIVERSE + "; traversal stage and random histories as for C03/C01; exotic stage (only the disclosure bit is compared there, the model does not distinguish these OS errors): every method on names longer than 255 bytes, on paths longer than 4096 bytes (15 nested 250-byte names), on and through symbolic links (self loop, link to a directory, dangling, link inside a copied collection), COPY/MOVE with such sources and destinations, and PUTs during whose body the parent is removed, replaced by a file, the target becomes an (empty / non-empty) directory or a file, or the root is removed; observed: does any header value or the body contain the sandbox's absolute path; non-trivial = every case; distinct = by digest of (tree, request)",
+    rule=UNIVERSE + "; traversal stage and random histories as for C03/C01; exotic stage (only the disclosure bit is compared there, the model does not distinguish these OS errors): every method on names longer than 255 bytes, on paths longer than 4096 bytes (15 nested 250-byte names), on and through symbolic links (self loop, link to a directory, dangling, link inside a copied collection), COPY/MOVE with such sources and destinations, and PUTs during whose body the parent is removed, replaced by a file, the target becomes an (empty / non-empty) directory or a file, or the root is removed; a link to /dev/null; rootspell stage: unclean spellings of the root in the configuration; raceput stage: 1,500 (quick) / 12,000 (thorough) PUT + GET of one target while four goroutines DELETE it (the windows between Create's rename and its final Stat, and between Stat and Open); observed: does any header value or the body contain the sandbox's absolute path; non-trivial = every case; distinct = by digest of (tree, request)",
     exhaustive=True,
     exhaustive_universe="every (tree, request) pair of the bounded universe",
     trusted_base=DAV_TRUST,
